@@ -348,7 +348,7 @@ def accesses(rec, M, hid, gen, mngr, S, Mm, A, wit, layout_diff):
         def afail(key, what):
             if primary:
                 rec.fail("access form not handled: %s" % primary, "%s: %s" % (key, what), w)
-            elif h.inline_refs:
+            elif h.inline_refs and layout_diff:
                 rec.fail("access in a header that names an aggregate defined inline elsewhere",
                          "%s: %s" % (key, what), w)
             elif layout_diff and key.startswith("c_to_expr differs"):
